@@ -66,7 +66,7 @@ def make_inputs(ck, n, tag):
     for i in range(n):
         r = core.rng(ck.seed, PID, tag, i)
         g = xmlgen.make(r)
-        item = {'bytes': g['bytes'], 'kind': 'wf', 'enc': g['encoding'], 'ns': g['cx'].ns, 'tags': g['cx'].tags}
+        item = {'bytes': g['bytes'], 'kind': 'wf', 'enc': g['encoding'], 'ns': g['cx'].ns, 'tags': g['cx'].tags, 'ents': g['ents']}
         if r.random() < 0.45:
             ops = list(xmlmut.ALL_OPS)
             r.shuffle(ops)
@@ -76,7 +76,7 @@ def make_inputs(ck, n, tag):
                     continue
                 m = xmlmut.mutate(g, r, opn)
                 if m:
-                    item = {'bytes': m['bytes'], 'kind': 'mut:' + opn, 'enc': g['encoding'], 'ns': g['cx'].ns, 'tags': g['cx'].tags}
+                    item = {'bytes': m['bytes'], 'kind': 'mut:' + opn, 'enc': g['encoding'], 'ns': g['cx'].ns, 'tags': g['cx'].tags, 'ents': g['ents']}
                     break
         out.append(item)
     return out
@@ -115,7 +115,7 @@ def run(tier):
             api = r.choice(['sax2', 'sax2', 'dom', 'sax1', 'domls']) if 'sched' not in it else 'sax2'
             base = dict(api=api, ns=1 if it['ns'] else 0, cont=0)   # continue-after-fatal is documented as undetermined: not compared
             cid = 'r%da%d' % (rd, i)
-            cases.append(core.Case(cid + '.mem', 'parse', base).doc(it['bytes']))
+            cases.append(core.Case(cid + '.mem', 'parse', base, ents=it.get('ents', ())).doc(it['bytes']))
             meta[cid + '.mem'] = (i, 'mem')
             scheds = list(SCHEDULES)
             r.shuffle(scheds)
@@ -125,12 +125,12 @@ def run(tier):
                 if '%d' in s:
                     s = s % r.randint(1, 10 ** 6)
                 k = cid + '.c' + s
-                cases.append(core.Case(k, 'parse', dict(base, src='chunk', chunk=s)).doc(it['bytes']))
+                cases.append(core.Case(k, 'parse', dict(base, src='chunk', chunk=s, chunkents=1), ents=it.get('ents', ())).doc(it['bytes']))
                 meta[k] = (i, 'chunk:' + s.split(',')[0][:6])
             for src in ('file', 'stdin'):
                 if r.random() < 0.5:
                     k = cid + '.' + src
-                    cases.append(core.Case(k, 'parse', dict(base, src=src)).doc(it['bytes']))
+                    cases.append(core.Case(k, 'parse', dict(base, src=src, sysid='file:///xv/doc.xml'), ents=it.get('ents', ())).doc(it['bytes']))
                     meta[k] = (i, src)
         recs = core.run_cases(binary, cases, tag='c04')
         base_sig = {}
